@@ -896,7 +896,10 @@ def r_parity(rep, f):
                     n_cond.add(id(nd))
                     # `signed quantity > 0` is a test of the direction itself: the mirrored run takes the other branch by
                     # design (that the branches are mirror images is what the value clauses check)
-                    sign_test = got == "odd" and (l_.is_zero() or r_.is_zero())
+                    nz_ = l_ if r_.is_zero() else r_
+                    inv_ = {"x0", "xend", "posneg", "direction"} | param_steps
+                    sign_test = got == "odd" and (l_.is_zero() or r_.is_zero()) and (
+                        (len(nz_.t) == 1 and len(next(iter(nz_.t))) == 1) or all(a_ in inv_ or (a_.startswith("signum[") and "X" not in a_) for a_ in nz_.atoms()))
                     bad = got == "mixed" or (got == "odd" and op_ not in ("eq", "ne") and not sign_test)
                     if bad:
                         what = "the test `%s`" % tast.render(nd["cond"])[:70]
